@@ -48,9 +48,11 @@ LEVEL_NOTE = ('Bounded history length and a fixed body set. Excluded by design: 
               'chain of exceptions raised by the body is compared). Alphabet restrictions (CPython-version-specific corners, not Cython defects): '
               'throw(StopIteration) while suspended in `yield from <iterator without throw()>` (CPython >= 3.12 turns it into '
               'the iterator result, PEP 380 says raise); close() of asend()/athrow() awaitables (3.12 and 3.13 differ); throw() '
-              'into a never-started awaitable while another awaitable of the same async generator is pending; re-driving a '
-              'finished awaitable except one extra send() after it finished through send(); a pending awaitable is never '
-              'discarded. The deeper thorough search uses a state abstraction (audited against the no-dedup run of a smaller '
+              'into a never-started awaitable while another awaitable of the same async generator is pending; any continuation '
+              'after a throw() into a never-started awaitable that made the generator yield, and re-driving an awaitable whose '
+              'send() was rejected (CPython 3.12.1 keeps both in the initial state, 3.12.4+/3.13 gh-117881 and Cython do not); '
+              're-driving a finished awaitable except one extra send() after it finished normally through send(); a pending '
+              'awaitable is never discarded. The deeper thorough search uses a state abstraction (audited against the no-dedup run of a smaller '
               'bound). Trusted: CPython 3.12 generator objects as the reference.')
 
 SYNC_OPS = ['next', 'send(None)', 'send(7)', 'throw(VE)', 'throw(VE())', 'throw(GE)', 'throw(SI(3))', 'close', 'iter', 'drop']
@@ -222,7 +224,9 @@ def _si_quirk(g):
 
 
 def slot_status(hist, outs):
-    """async generator awaitable slots: None | 'fresh' | 'pending' | 'done-send' | 'done-throw' | 'reused'"""
+    """async generator awaitable slots: None | 'fresh' | 'pending' | 'done-send' | 'done-exc' | 'reused' | 'quirk'
+    ('quirk' = throw() into a never-started awaitable made the generator yield: the awaitable is pending although it
+    never left its initial state in CPython 3.12.1)"""
     st = [None, None]
     for op, o in zip(hist, outs):
         if op == 'drop':
@@ -234,11 +238,13 @@ def slot_status(hist, outs):
         else:
             kind = o[0][0]
             if kind == 'y':
-                st[s_] = 'pending'
+                st[s_] = 'quirk' if (a != 'send(None)' and st[s_] == 'fresh') else 'pending'
             elif st[s_] == 'done-send':
                 st[s_] = 'reused'
+            elif a == 'send(None)' and kind in ('stop', 'astop'):
+                st[s_] = 'done-send'
             else:
-                st[s_] = 'done-send' if a == 'send(None)' else 'done-throw'
+                st[s_] = 'done-exc'
     return st
 
 
@@ -251,8 +257,13 @@ def enabled(kind, hist, outs, quirk=False):
     # async generator: slot 1 may only be filled once slot 0 is.  An awaitable is driven like an event loop would:
     # send(None) while not finished; throw() while it is pending (cancellation) or before its first step provided no
     # other awaitable of the generator is pending; a finished awaitable is awaited once more only if it finished
-    # through send() ("await twice").
+    # NORMALLY through send() ("await twice"), not when its send() was rejected (e.g. "already running").  A history
+    # in which throw() into a never-started awaitable made the generator yield is executed and compared but not
+    # extended: CPython 3.12.1 leaves such an awaitable (and ag_running_async) in its initial state, 3.12.4+/3.13
+    # (gh-117881) and Cython mark it running, so every continuation differs between CPython versions themselves.
     st = slot_status(hist, outs)
+    if 'quirk' in st:
+        return ['drop']
     ops = []
     for s in (0, 1):
         if s == 1 and st[0] is None:
@@ -723,7 +734,7 @@ def run(ctx):
     assumptions = ['protocol behaviour for histories longer than the bound and for bodies outside the fixed set is not covered',
                    'exception message texts of interpreter-generated errors are not compared; __context__ chains are compared as type names',
                    'by-design alphabet restrictions: see LEVEL_NOTE']
-    if ctx.tier == 'thorough':
+    if ctx.tier == 'thorough' and 'gen' in only and not only_bodies:
         # deeper bound with state dedup; the abstraction is audited by comparing a dedup run and the no-dedup run on bound 5
         deep = Totals()
         sweep(ctx, b, first_cases('gen', H.SYNC, 8, True), deep, timeout=1500)
